@@ -56,8 +56,9 @@ class VT:
 
 class Scheduler:
   def __init__(self, schedule=(), trace_files=(), opcodes=False, step_limit=1500000, quantum=23,
-               record=False):
+               record=False, timed=None):
     self.schedule = [tuple(x) for x in schedule]
+    self.timed = dict((float(k), [tuple(x) for x in v]) for k, v in (timed or {}).items())
     self.sched_pos = 0
     self.trace_files = set(trace_files)
     self.opcodes = opcodes
@@ -154,6 +155,13 @@ class Scheduler:
       self.remaining = 1
       return cands[0]
     self.decisions += 1
+    if self.timed:
+      # decisions scripted for one virtual instant (robust against changes elsewhere in the run)
+      lst = self.timed.get(self.now)
+      if lst:
+        pick, length = lst.pop(0)
+        self.remaining = max(1, int(length))
+        return cands[pick % len(cands)]
     if self.sched_pos < len(self.schedule):
       pick, length = self.schedule[self.sched_pos]
       self.sched_pos += 1
